@@ -261,3 +261,7 @@ package codec
 //@ func (*Codec).decodeQuery
 //@   assert at SetGoValue#0 exact: typeis(arg0, string) && as(string, arg0) == values[0] && len(values) == 1
 //@   assert at AppendGoValue#0 exact: typeis(arg0, string) && as(string, arg0) == value
+
+// an Any is {"!type": …, "value": …}: the payload is read from the member called "value" and from no other (C03)
+//@ func (*decoder).decodeAny$1
+//@   assert at popValueAsBytes#0 member: keyTokenStr == "value"
